@@ -185,6 +185,15 @@ def ref_grad(params, batch):
   return {'w': 2.0 * (r @ x) / n, 'b': np.float64(2.0 * r.sum() / n)}
 
 
+def documented_steps(n, hp):
+  """Number of batches ShuffleRepeatBatchHParams documents for N examples."""
+  b, e, t, drop = hp['batch_size'], hp['num_epochs'], hp['num_steps'], hp['drop_remainder']
+  if e is None:
+    return t          # (None, None) is never generated
+  steps = (n * e) // b if drop else -(-(n * e) // b)
+  return steps if t is None else min(t, steps)
+
+
 class Reference:
   """FedAvg by its definition, carrying its own server optimizer state."""
 
@@ -221,6 +230,14 @@ class Reference:
         nsteps += 1
       self.steps[i] = nsteps
       n = len(ds)
+      want_steps = documented_steps(n, self.case['hparams'])
+      if want_steps is not None:
+        # (the stream is C04's property; its length is re-derived here from the
+        # documentation so that a wrong number of local steps is not mirrored
+        # by a reference that reads the same stream)
+        require(nsteps == want_steps, 'client_local_steps_differ_from_documented_count',
+                f'client of {n} examples, hparams {self.case["hparams"]}: {nsteps} local steps, '
+                f'documented {want_steps}')
       for k in acc:
         acc[k] = acc[k] + n * (self.params[k] - p[k])
       total += n
